@@ -212,6 +212,37 @@ def rule_permissive(prog):
                 n_custom += 1
                 res.fn(g)
                 _permissive_scan(res, g, reg, g.norm.split("custom_tap_hold::")[-1] + "/")
+    # the early triggers of the configurable variants react to *presses* of other keys (documented: "a listed key
+    # pressed", "another key pressed and released"): inside the closures every decision taken while scanning the queue
+    # lies on the true edge of Event::is_press()
+    for g in prog.fns.values():
+        if not (g.norm.startswith("kanata_parser::cfg::custom_tap_hold::") and g.parent):
+            continue
+        isp = [(bi, t) for bi, t in g.calls() if (callee_name(t) or "").endswith("Event::is_press")]
+        nexts = [bi for bi, t in g.calls() if (callee_name(t) or "").endswith("::next")]
+        if not isp or not nexts:
+            continue
+        loop_blocks = set()
+        for nb in nexts:
+            loop_blocks |= g.reach_from(nb)
+        for bi, si, st in g.all_rvalues():
+            rv = st["rv"]
+            if rv["k"] == "agg" and rv.get("adt") == WA and bi in loop_blocks:
+                ok = False
+                for (pb, pt) in isp:
+                    nb2 = pt["t"]
+                    tt = g.term(nb2) if nb2 is not None else None
+                    if tt and tt["k"] == "switch" and g.dominates(pb, bi):
+                        false_t = [tb for v, tb in tt["ts"] if v == 0] or ([tt["o"]] if any(v == 1 for v, _ in tt["ts"]) else [])
+                        if false_t and bi not in g.reach_from(false_t[0], avoid=[nb2, pb] + nexts):
+                            ok = True
+                key = "%s/decision-%s-on-press-only" % (g.norm.split("custom_tap_hold::")[-1], rv["v"])
+                res.inst(key, ok=ok)
+                res.oblige(ok)
+                if not ok:
+                    res.viol(key, "%s:%s" % (g.file, st.get("ln")),
+                             "the closure decides WaitingAction::%s while scanning the queue without having checked that the event is "
+                             "a press: the release of a key that was already down triggers the early decision" % rv["v"])
     res.inst("custom-closures", n=n_custom)
     if n_custom == 0:
         res.viol("custom-closures", "parser/src/cfg/custom_tap_hold.rs", "no tap-hold-release-keys style closure with a press loop and a release search was found")
